@@ -513,6 +513,15 @@ func (p *Parser) parseLambdaMulti(left ast.Node, more ...ast.Node) ast.Node {
 	} else {
 		lambda.Parameters = append([]ast.Node{left}, more...)
 	}
+	for _, param := range lambda.Parameters {
+		if param == nil { // a parameter that failed to parse, e.g. `(a, <<) => 1`
+			if len(p.errors) == 0 && !p.continuationNeeded {
+				errLine, lineNum := p.ErrorLine(false)
+				p.addError(fmt.Sprintf("%d: lambda parameters must be identifiers\n%s", lineNum, errLine))
+			}
+			return nil
+		}
+	}
 	t, ok := okParamList(lambda.Parameters)
 	if !ok {
 		errLine, lineNum := p.ErrorLine(false)
